@@ -29,6 +29,8 @@ enum Scenario {
     BatchBlocking { n: usize, perm: Vec<usize> },
     /// reply delivered after only `header + k` bytes of the (large) request were accepted
     Early { k: usize, queued_behind: bool },
+    /// AsyncClient::forward_message with a caller-supplied id equal to the id of one of n calls in flight
+    ForwardDuplicate { n: usize, victim: usize },
 }
 
 fn permutations(n: usize) -> Vec<Vec<usize>> {
@@ -102,6 +104,11 @@ fn scenarios(tier: Tier) -> Vec<Scenario> {
     for k in [0usize, 1, 2, 3, 10, 100, 8192 - 48, 8192 - 47, 19000] {
         for queued_behind in [false, true] {
             v.push(Scenario::Early { k, queued_behind });
+        }
+    }
+    for n in 1..=3 {
+        for victim in 0..n {
+            v.push(Scenario::ForwardDuplicate { n, victim });
         }
     }
     v
@@ -287,6 +294,48 @@ async fn run_early(k: usize, queued_behind: bool) -> (Bad, u64) {
 }
 
 
+
+/// Another user of the same connection forwards a prebuilt message whose id equals the id of
+/// a call in flight. Whatever happens to the forward, every call must still get the response
+/// addressed to its own id.
+async fn run_forward_duplicate(n: usize, victim: usize) -> (Bad, u64) {
+    let mut bad = Bad::new();
+    let Conn { cli, mut peer, .. } = clients::connect(Kind::Async).await;
+    let Cli::Async(ac) = cli.clone() else { unreachable!() };
+    let tags: Vec<u64> = (0..n as u64).map(|i| 700 + i).collect();
+    let calls: Vec<_> = tags.iter().map(|t| tokio::spawn(cli.call(*t, None, 0))).collect();
+    let reqs = peer.drain_requests().await.unwrap_or_default();
+    let ids = clients::tag_ids(&reqs);
+    if ids.len() != n {
+        return (vec![("C04:requests-missing".into(), format!("{} of {n} requests arrived", reqs.len()))], 0);
+    }
+    let dup_id = ids[&tags[victim]];
+    let fwd_msg = repe::Message::builder().id(dup_id).query_str("/fwd").body_bytes(b"1".to_vec()).body_format(repe::BodyFormat::Json).build();
+    let fwd = tokio::spawn(async move { ac.forward_message(&fwd_msg).await });
+    memstream::settle().await;
+    let extra = peer.drain_requests().await.unwrap_or_default();
+    // the peer answers every request it saw, once each, in arrival order
+    for t in &tags {
+        peer.send(&clients::reply(ids[t])).await;
+        memstream::settle().await;
+    }
+    for _ in &extra {
+        peer.send(&clients::reply(dup_id)).await;
+        memstream::settle().await;
+    }
+    for (i, h) in calls.into_iter().enumerate() {
+        let r = clients::join_call(h).await;
+        if r != Res::Id(ids[&tags[i]]) {
+            bad.push((
+                format!("C04:wrong-response:{}", if r == Res::Hang { "hang" } else { "after-duplicate-id" }),
+                format!("AsyncClient: {n} calls in flight, forward_message re-used the id of call #{victim}; call #{i} (request id {}) returned {r:?}", ids[&tags[i]]),
+            ));
+        }
+    }
+    let _ = tokio::time::timeout(clients::HOUR, fwd).await;
+    (bad, 128)
+}
+
 // ------------------------------------------------------------------ blocking Client over TCP
 
 fn read_requests(s: &mut std::net::TcpStream, n: usize) -> Result<Vec<crate::frames::Frame>, String> {
@@ -419,6 +468,7 @@ pub fn run(tier: Tier) -> ! {
                     Scenario::Perm { kind, n, perm, extra, pos, burst } => run_perm(*kind, *n, perm, *extra, *pos, *burst).await,
                     Scenario::Batch { kind, n, perm } => run_batch(*kind, *n, perm).await,
                     Scenario::Early { k, queued_behind } => run_early(*k, *queued_behind).await,
+                    Scenario::ForwardDuplicate { n, victim } => run_forward_duplicate(*n, *victim).await,
                     Scenario::PermBlocking { n, perm, extra, pos } => run_perm_blocking(*n, perm, *extra, *pos, false),
                     Scenario::BatchBlocking { n, perm } => run_perm_blocking(*n, perm, Extra::None, 0, true),
                 }
@@ -493,6 +543,7 @@ pub fn replay(case: &Value) -> Result<(), String> {
             Scenario::Perm { kind, n, perm, extra, pos, burst } => run_perm(*kind, *n, perm, *extra, *pos, *burst).await,
             Scenario::Batch { kind, n, perm } => run_batch(*kind, *n, perm).await,
             Scenario::Early { k, queued_behind } => run_early(*k, *queued_behind).await,
+            Scenario::ForwardDuplicate { n, victim } => run_forward_duplicate(*n, *victim).await,
             Scenario::PermBlocking { n, perm, extra, pos } => run_perm_blocking(*n, perm, *extra, *pos, false),
             Scenario::BatchBlocking { n, perm } => run_perm_blocking(*n, perm, Extra::None, 0, true),
         }
